@@ -180,6 +180,10 @@ def seeds(seed=0, kinds=None):
     add('Q2', 'MeshQuad1',
         np.array([[0, 0], [1, .125], [2.25, 0], [0, 1], np.array([1.125, 1]) + o(0, 2), [2, 1.25]]).T,
         np.array([[0, 1, 4, 3], [1, 2, 5, 4]]).T)
+    # one exactly affine (square) cell next to a general convex one: iterations that converge at different
+    # speeds in different cells are only visible on such a mix
+    add('Qmix', 'MeshQuad1', np.array([[0, 0], [1, 0], [2, -.25], [0, 1], [1, 1], np.array([2.5, 1.25]) + o(2, 2)]).T,
+        np.array([[0, 1, 4, 3], [1, 2, 5, 4]]).T)
     G = np.array([[0, 0], [1, -.125], [2, .125], [-.125, 1], np.array([1.125, .875]) + o(1, 2), [2.25, 1],
                   [0, 2.25], [.875, 2], [2, 2.125]], dtype=float).T
     QT = np.array([[0, 1, 4, 3], [1, 2, 5, 4], [3, 4, 7, 6], [4, 5, 8, 7]]).T
